@@ -32,6 +32,11 @@ type scope struct {
 	instances   map[instanceKey]any
 	instancesMu sync.RWMutex
 
+	// Scoped constructions in progress, keyed by constructor (guarded by instancesMu).
+	// Concurrent resolutions of the same scoped service wait for the one in flight
+	// instead of constructing a second instance.
+	creating map[*Descriptor]chan struct{}
+
 	// Track disposable scoped instances
 	disposables   []Disposable
 	disposablesMu sync.Mutex
@@ -449,19 +454,7 @@ func (s *scope) resolve(key instanceKey, descriptor *Descriptor) (any, error) {
 		}
 
 	case Scoped:
-		// Check for circular dependency only when creating new instance
-		verifGate("R_lookup", s)
-		if instance, ok := s.getInstance(key); ok {
-			return instance, nil
-		}
-
-		// Create and cache scoped instance
-		instance, err := s.createInstance(descriptor)
-		if err != nil {
-			return nil, err
-		}
-
-		return instance, nil
+		return s.resolveScoped(key, descriptor)
 
 	case Transient:
 		// Always create new instance
@@ -472,6 +465,58 @@ func (s *scope) resolve(key instanceKey, descriptor *Descriptor) (any, error) {
 			Value: descriptor.Lifetime,
 		}
 	}
+}
+
+// resolveScoped returns the scope's instance of a scoped service, constructing it if
+// necessary. At most one construction per constructor is in flight in a scope: a
+// concurrent resolution waits for it and then uses its result (or retries if it failed).
+func (s *scope) resolveScoped(key instanceKey, descriptor *Descriptor) (any, error) {
+	flight := descriptor
+	if len(descriptor.outputs) > 0 {
+		flight = descriptor.outputs[0]
+	} else if len(descriptor.aliases) > 0 {
+		flight = descriptor.aliases[0]
+	}
+
+	for {
+		verifGate("R_lookup", s)
+		if instance, ok := s.getInstance(key); ok {
+			return instance, nil
+		}
+
+		s.instancesMu.Lock()
+		if instance, ok := s.instances[key]; ok {
+			s.instancesMu.Unlock()
+			return instance, nil
+		}
+
+		if inFlight, busy := s.creating[flight]; busy {
+			s.instancesMu.Unlock()
+			<-inFlight
+			continue
+		}
+
+		if s.creating == nil {
+			s.creating = make(map[*Descriptor]chan struct{}, 2)
+		}
+		finished := make(chan struct{})
+		s.creating[flight] = finished
+		s.instancesMu.Unlock()
+
+		return s.createScoped(descriptor, flight, finished)
+	}
+}
+
+// createScoped runs the construction this goroutine has claimed and releases the waiters.
+func (s *scope) createScoped(descriptor, flight *Descriptor, finished chan struct{}) (any, error) {
+	defer func() {
+		s.instancesMu.Lock()
+		delete(s.creating, flight)
+		s.instancesMu.Unlock()
+		close(finished)
+	}()
+
+	return s.createInstance(descriptor)
 }
 
 // createInstance creates a new instance of a service using its constructor.
